@@ -513,6 +513,10 @@ pub fn read_expr(e: &ast::Expr, o: &mut String) {
             o.push(')');
         }
         ast::Expr::BitArray(_) => o.push_str("(bits)"),
+            // `todo` / `panic` (a MISSING node): an `ast::Expr` of its own since the repair that lowers
+        // their messages, read at node level either way
+        #[allow(unreachable_patterns)]
+        _ => read_expr_node(e.syntax(), o),
     }
 }
 
